@@ -1056,6 +1056,10 @@ func (r *Report) replayOnce(o *Obligation, dir string, log *strings.Builder, mod
 		}
 		b.stmts = append(b.stmts, fmt.Sprintf("var %s %s = %s", name, b.typeStr(p.Type), e))
 		b.stmts = append(b.stmts, "_ = "+name)
+		if len(x.spec.Params) == len(x.replay.Params) && x.spec.Params[i] != name {
+			// the contract pins another name for this parameter
+			b.stmts = append(b.stmts, fmt.Sprintf("%s := %s", x.spec.Params[i], name), "_ = "+x.spec.Params[i])
+		}
 		argNames = append(argNames, name)
 	}
 	// 1b. the scripts of the fakes
